@@ -228,6 +228,7 @@ func (e *c07env) prepare() (target *wire.Msg, ok bool) {
 func c07Run(seed int64, sc c07scn, res *core.Result) {
 	cfg := Config{Dotu: sc.dotu, Msize: 8192, Flush: sc.mode != "none", Auth: sc.kind == "auth", TracePoints: true}
 	s := NewSess(cfg)
+	s.Ctl.UseGID = true // goroutine roles (runtime.Stack per point: expensive, this engine only)
 	c := s.Dial()
 	e := &c07env{s: s, c: c, sc: sc, uid: uidFor(sc.dotu, 1001), root: 1}
 	defer func() {
